@@ -24,6 +24,11 @@ void verif_second_arrival(void *root, void *node, void *parent);
 #undef VERIF_HOOK_rbt_insert_adjust_head
 #define VERIF_HOOK_rbt_insert_adjust_head VERIF_HOOK_STEP
 #endif
+#ifdef LEMMA_UNLINK
+void verif_at_fixup_head(void *node, void *parent);
+#undef VERIF_HOOK_rbt_remove_adjust_head
+#define VERIF_HOOK_rbt_remove_adjust_head { verif_at_fixup_head(node, parent); }
+#endif
 #include "a/rbt.h"
 /* the fix-up code states facts about the sibling's children with A_ASSUME: here they are proof obligations */
 #undef A_ASSUME
@@ -282,6 +287,176 @@ void h_insert_step(void)
         ASSERT(bh_of(t) == ibh_old || (!hasP && bh_of(t) == ibh_old + 1), "insert_adjust step (done): black height seen from above unchanged (a red root turned black makes the whole tree one higher)");
         ASSERT(blackp(t) || (hasGG && cGG_ == 1), "insert_adjust step (done): the subtree root is red only below a black parent; a root is black");
         ASSERT(sz_of(t) == isize0, "insert_adjust step (done): no element lost or duplicated");
+    }
+    VERIF_CANARY();
+}
+#endif
+
+/* ---- lemma for a_rbt_remove (the unlink cases and the decision to start the fix-up):
+        G? - X { A (left subtree, boundary), spine s0 = C (right child) - s1 - s2 ... down the left spine to the
+        successor S (spine depth 0..3 materialised, every spine node's right subtree a boundary; S->left absent,
+        S->right = child2 boundary) }.  Obligation: either the function ends with a valid red-black search tree of
+        the old black height, or it reaches the head of the fix-up loop in a state satisfying that loop's invariant
+        J_rem (checked at the loop-head hook, where the run is cut: the step lemma takes over from there). ---- */
+#ifdef LEMMA_UNLINK
+static wn uG, uX, uS0, uS1, uS2, uS3;           /* window nodes: anchor, node to remove, spine (successor = last used) */
+static wn uA, uR0, uR1, uR2, uR3;               /* boundaries: X's left subtree, right subtrees of the spine nodes (uR<depth> = child2) */
+static _Bool uhasG; static int usideG; static int depth;
+static int ubh_old, usize0; static unsigned ucX;
+static a_uptr uGword0; static a_rbt_node *uGother0;
+static a_rbt_node *deficit_parent; static int deficit_side;   /* phantom: that NULL child counts as one black node */
+static a_rbt_node *utop(void) { return uhasG ? getc(&uG.n, usideG) : root.node; }
+static int uframe(void) { return !uhasG || (uG.n.parent_ == uGword0 && getc(&uG.n, -usideG) == uGother0 && root.node == &uG.n); }
+/* passes() variant that accounts for the phantom black leaf */
+static int bh_child(a_rbt_node *x, int side) { a_rbt_node *c = getc(x, side); return (c == A_NULL && x == deficit_parent && side == deficit_side) ? 1 : bh_of(c); }
+static void upasses(void)
+{
+    int p, i;
+    for (i = 0; i < NW; ++i) { Wbh[i] = 0; Wok[i] = 0; Wsz[i] = 1; if (i < nw) { Wmn[i] = Wmx[i] = Wn[i]->key; } }
+    for (p = 0; p < NW - 1; ++p)
+    {
+        for (i = NW - 1; i >= 0; --i)
+        {
+            if (i < nw)
+            {
+                a_rbt_node *x = &Wn[i]->n, *l = x->left, *r = x->right;
+                int ok = known(l) && known(r) && !(l && l == r);
+                if (ok)
+                {
+                    ok = ok_of(l) && ok_of(r) && bh_child(x, -1) == bh_child(x, 1);
+                    if (!blackp(x) && !(blackp(l) && blackp(r))) { ok = 0; }
+                    if (l && !(mx_of(l) < Wn[i]->key)) { ok = 0; }
+                    if (r && !(Wn[i]->key < mn_of(r))) { ok = 0; }
+                    if (l && a_rbt_parent(l) != x) { ok = 0; }
+                    if (r && a_rbt_parent(r) != x) { ok = 0; }
+                    Wbh[i] = bh_child(x, -1) + (blackp(x) ? 1 : 0);
+                    Wmn[i] = l ? mn_of(l) : Wn[i]->key;
+                    Wmx[i] = r ? mx_of(r) : Wn[i]->key;
+                    Wsz[i] = 1 + sz_of(l) + sz_of(r);
+                }
+                Wok[i] = ok;
+            }
+        }
+    }
+}
+static void judge(const char *unused)
+{
+    (void)unused;
+}
+void verif_second_arrival(void *root_, void *node, void *parent) { (void)root_; (void)node; (void)parent; __CPROVER_assume(0); }
+static int hook_seen;
+/* first arrival at the head of the fix-up loop: J_rem(parent, node = NULL) must hold */
+void verif_at_fixup_head(void *node_, void *parent_)
+{
+    a_rbt_node *node = (a_rbt_node *)node_, *parent = (a_rbt_node *)parent_;
+    a_rbt_node *t = utop();
+    hook_seen = 1;
+    if (uhasG && parent == &uG.n)
+    {
+        /* the removed node was a black leaf: its place below its parent is now empty and one black node short */
+        __CPROVER_assert(node == A_NULL && usize0 == 1 && ucX == 1 && t == A_NULL, "remove: a fix-up at the removed node's parent happens exactly when a black leaf was removed");
+        __CPROVER_assert(uG.n.parent_ == uGword0 && getc(&uG.n, -usideG) == uGother0, "remove: nothing else above changed");
+    }
+    else
+    {
+        __CPROVER_assert(node == A_NULL && parent != A_NULL && widx(parent) >= 0, "remove: the fix-up starts at a window node with an absent child");
+        __CPROVER_assert(parent->left == A_NULL || parent->right == A_NULL, "remove: the deficient child of the fix-up's parent is absent");
+        /* which side is deficient: the fix-up treats the left side as the node's side unless node == parent->right (== NULL) */
+        deficit_parent = parent;
+        deficit_side = (parent->right == A_NULL) ? 1 : -1;
+        /* X has been unlinked: judge the remaining window nodes */
+        { int i, j = 0; wn *keep[NW]; for (i = 0; i < NW; ++i) { if (i < nw && Wn[i] != &uX) { keep[j++] = Wn[i]; } } for (i = 0; i < NW; ++i) { if (i < j) { Wn[i] = keep[i]; } } nw = j; }
+        upasses();
+        __CPROVER_assert(t != A_NULL && widx(t) >= 0 && a_rbt_parent(t) == (uhasG ? &uG.n : (a_rbt_node *)A_NULL) && uframe(), "remove: the successor (or child) took the removed node's place below the same parent");
+        __CPROVER_assert(ok_of(t), "remove: at the start of the fix-up the tree is valid except that paths through the absent child are one black node short (the fix-up loop's invariant)");
+        __CPROVER_assert(bh_of(t) == ubh_old, "remove: ... and every other path has the old black height");
+        __CPROVER_assert(blackp(t) || ucX == 0, "remove: the node in the removed node's place has the removed node's colour");
+        __CPROVER_assert(sz_of(t) == usize0 - 1, "remove: exactly the removed element is gone");
+    }
+    __CPROVER_assume(0);
+}
+#undef VERIF_HOOK_STEP
+void h_unlink(void)
+{
+    ND(int, depth_, int); ND(_Bool, hasG_, bool); ND(int, sideG_, int);
+#ifndef MAXDEPTH
+#define MAXDEPTH 2
+#endif
+    ASSUME(depth_ >= 0 && depth_ <= MAXDEPTH && (sideG_ == -1 || sideG_ == 1));
+    depth = depth_; uhasG = hasG_; usideG = sideG_;
+    NDC(cG); NDC(cX); NDC(c0); NDC(c1); NDC(c2); NDC(c3);
+    NDC(cA); NDC(d0); NDC(d1); NDC(d2); NDC(d3);
+    ND(_Bool, eA, bool); ND(_Bool, e0, bool); ND(_Bool, e1, bool); ND(_Bool, e2, bool); ND(_Bool, e3, bool);
+    NDG(gA); NDG(g0); NDG(g1); NDG(g2); NDG(g3);
+    ND(_Bool, kA, bool); ND(_Bool, k0, bool); ND(_Bool, k1, bool); ND(_Bool, k2, bool); ND(_Bool, k3, bool);
+    ND(_Bool, one_child_left, bool); ND(_Bool, no_right, bool);
+    ucX = cX;
+    wn *sp[4]; sp[0] = &uS0; sp[1] = &uS1; sp[2] = &uS2; sp[3] = &uS3;
+    wn *rb[4]; rb[0] = &uR0; rb[1] = &uR1; rb[2] = &uR2; rb[3] = &uR3;
+    unsigned cs[4]; cs[0] = c0; cs[1] = c1; cs[2] = c2; cs[3] = c3;
+    unsigned ds[4]; ds[0] = d0; ds[1] = d1; ds[2] = d2; ds[3] = d3;
+    _Bool es[4]; es[0] = e0; es[1] = e1; es[2] = e2; es[3] = e3;
+    int i;
+    nw = 0; Wn[nw++] = &uX;
+    for (i = 0; i < 4; ++i) { if (!no_right && i <= depth) { Wn[nw++] = sp[i]; } }
+    Bn[0] = &uA; Bn[1] = &uR0; Bn[2] = &uR1; Bn[3] = &uR2; Bn[4] = &uR3; nb = 5;
+    Bg[0] = gA; Bg[1] = g0; Bg[2] = g1; Bg[3] = g2; Bg[4] = g3;
+    Bcb[0] = kA; Bcb[1] = k0; Bcb[2] = k1; Bcb[3] = k2; Bcb[4] = k3;
+    /* keys: A < X < s_depth < ... < s1 < s0, right subtree of s_i just above s_i */
+    uG.key = 1000; uA.key = 10; uX.key = 20;
+    for (i = 0; i < 4; ++i) { sp[i]->key = 100 - 20 * i; rb[i]->key = 100 - 20 * i + 5; }
+    /* links */
+    uG.n.left = uG.n.right = A_NULL; a_rbt_set_parent_color(&uG.n, A_NULL, cG);
+    uX.n.left = uX.n.right = A_NULL; a_rbt_set_parent_color(&uX.n, uhasG ? &uG.n : (a_rbt_node *)A_NULL, cX);
+    if (uhasG) { setc(&uG.n, &uX.n, usideG); root.node = &uG.n; } else { root.node = &uX.n; }
+    link_opt(&uX, &uA, -1, eA, cA);
+    if (!no_right)
+    {
+        link_opt(&uX, &uS0, 1, 1, c0);
+        for (i = 0; i < 4; ++i)
+        {
+            if (i <= depth)
+            {
+                link_opt(sp[i], rb[i], 1, es[i], ds[i]);
+                if (i < depth) { link_opt(sp[i], sp[i + 1], -1, 1, cs[i + 1]); }
+            }
+        }
+    }
+    uGword0 = uG.n.parent_; uGother0 = getc(&uG.n, -usideG);
+    /* which of the three entry shapes: no left child / left child only / two children */
+    ASSUME(!one_child_left || (eA && no_right));
+    ASSUME(one_child_left || !no_right || !eA || 1);
+    /* the whole window is a valid red-black tree */
+    deficit_parent = A_NULL;
+    upasses();
+    ASSUME(ok_of(&uX.n));
+    ASSUME(!uhasG || cG == 1 || cX == 1);
+    ASSUME(uhasG || cX == 1);
+    ubh_old = bh_of(&uX.n);
+    usize0 = sz_of(&uX.n);
+    hook_seen = 0;
+    a_rbt_remove(&root, &uX.n);
+    {
+        /* no fix-up was needed: the result is a valid tree of the old black height */
+        a_rbt_node *t = utop();
+        /* X is no longer a window node of the tree: judge the remaining nodes */
+        int j = 0;
+        wn *keep[NW];
+        for (i = 0; i < NW; ++i) { if (i < nw && Wn[i] != &uX) { keep[j++] = Wn[i]; } }
+        for (i = 0; i < NW; ++i) { if (i < j) { Wn[i] = keep[i]; } }
+        nw = j;
+        deficit_parent = A_NULL;
+        upasses();
+        ASSERT(uframe(), "remove: nothing above the removed node changed");
+        if (usize0 == 1) { ASSERT(t == A_NULL, "remove: removing the only element of the subtree leaves it empty"); }
+        else
+        {
+            ASSERT(t != A_NULL && known(t) && a_rbt_parent(t) == (uhasG ? &uG.n : (a_rbt_node *)A_NULL), "remove: the replacement hangs below the removed node's parent");
+            ASSERT(ok_of(t), "remove (no fix-up needed): the tree is a valid red-black search tree");
+            ASSERT(bh_of(t) == ubh_old, "remove (no fix-up needed): black height unchanged");
+            ASSERT(sz_of(t) == usize0 - 1, "remove: exactly the removed element is gone");
+            ASSERT(blackp(t) || ucX == 0 || uhasG, "remove: a root stays black");
+        }
     }
     VERIF_CANARY();
 }
